@@ -208,4 +208,23 @@ def pyIndices (a b : Option Int) (step : Int) (n : Nat) : Int × Int :=
 def inPyRange (start stop step : Int) (k : Int) : Prop :=
   ∃ j : Nat, k = start + j * step ∧ (if 0 < step then k < stop else stop < k)
 
+/-! ### compressed data: the subsets share the structure of subset 0 (decidable; hypothesis of `C16_mkMsg_shape_compressed`) -/
+
+mutual
+/-- every delayed replication factor of the tree has the same count in the flat lists of `o` as in those of `o0`
+    (what "the subsets of compressed data share one structure" means for the renderer) -/
+def sameCountsList (o0 o : SubsetOut) : List Node → Bool
+  | [] => true
+  | n :: ns => sameCounts1 o0 o n && sameCountsList o0 o ns
+
+def sameCounts1 (o0 o : SubsetOut) : Node → Bool
+  | .value _ _ attrs => sameCountsList o0 o attrs
+  | .noval _ => true
+  | .seq _ ms => sameCountsList o0 o ms
+  | .fixedRep _ _ ms => sameCountsList o0 o ms
+  | .delayedRep _ _ (.value _ i attrs) ms =>
+    decide (wireCount o i = wireCount o0 i) && sameCountsList o0 o attrs && sameCountsList o0 o ms
+  | .delayedRep _ _ _ ms => sameCountsList o0 o ms
+end
+
 end Bufr.Spec
